@@ -68,6 +68,14 @@ SPELL = {"A": ["A", "a"], "B/3": ["B/3", "b/3"], "B/4": ["B/4"], "Cee": ["Cee", 
          "B/go": ["B/go", "b/GO", "B/Go", "B/go"]}
 
 
+# seconds per unit, from the SI prefixes and the time units of the schema (singular / plural / symbol spellings string
+# validation accepts) - written down here, not asked of the library
+UNIT_FACTOR = {"s": 1.0, "ms": 1e-3, "second": 1.0, "seconds": 1.0, "millisecond": 1e-3, "milliseconds": 1e-3, "ks": 1e3,
+               "kilosecond": 1e3, "kiloseconds": 1e3, "minute": 60.0, "minutes": 60.0, "hour": 3600.0, "hours": 3600.0,
+               "cs": 1e-2, "centiseconds": 1e-2, "day": 86400.0}
+# (micro and beyond are left out: the released schema file spells their factors "10e-6", i.e. 1e-5 - a matter of the
+# schema data, not of this property)
+
 DEF_CONTENT = {"a": "(Red)", "cee": "(Blue, Square)"}
 
 
@@ -120,7 +128,7 @@ def generate(run_index, seed, tier):
     t = 0.0
     times = []
     for _ in hist:
-        t += g.pick([0.25, 0.5, 1.0, 1.5, 2.0])
+        t += g.pick([0.25, 0.5, 1.0, 1.5, 2.0]) if g.chance(0.93) else g.pick([60.0, 120.0, 3600.0, 86400.0])
         times.append(t)
     sc["times"] = times
     sc["driver"] = g.pick(["api", "file", "file"]) if not sc["enumerated"] else ("api" if run_index % 2 == 0 else "file")
@@ -136,8 +144,12 @@ def generate(run_index, seed, tier):
                 if ti > 0 and g.chance(0.25):
                     src = g.randrange(ti) if g.chance(0.6) else max(0, ti - 1)
                     delta = T - times[src]
-                    unit = g.pick(["s", "s", "ms"])
-                    val = ("%g" % delta) if unit == "s" else ("%g" % (delta * 1000))
+                    unit = g.pick(["s", "s", "ms"] + sorted(UNIT_FACTOR))
+                    val = "%.12g" % (delta / UNIT_FACTOR[unit])
+                    if float(val) * UNIT_FACTOR[unit] != delta:
+                        # the shifted time must be exactly the time point it is meant to join (value x factor in floating
+                        # point, as anyone computes it); spellings that cannot express this delay exactly are not used
+                        unit, val = "s", "%.12g" % delta
                     carried.setdefault(src, []).append("(Def/%s, %s, Delay/%s %s)" % (name, kind, val, unit))
                 else:
                     mine.append(_marker_text(kind, name, expanded=g.chance(0.15)))
@@ -157,7 +169,7 @@ def generate(run_index, seed, tier):
                     # nothing worse than a warning takes part in the temporal pass like any other)
                     hed = ", ".join(b + ([g.pick(["Red", "Blue", "Green", "red", "Item/Newthing", "blue"])]
                                          if g.chance(0.4) or not b else []))
-                    rows.append([g.pick(["%g", "%.2f", "%.1f"]) % T if (T * 10) % 1 == 0 else "%g" % T, hed, ti])
+                    rows.append([g.pick(["%.10g", "%.2f", "%.1f"]) % T if (T * 10) % 1 == 0 else "%.10g" % T, hed, ti])
         # keep file order = time order (stable by construction index), unless shuffled
         rows.sort(key=lambda r: (times[r[2]], 0))
         sc["rows"] = [[r[0], r[1]] for r in rows]
@@ -166,7 +178,7 @@ def generate(run_index, seed, tier):
         for _ in range(g.pick([0, 0, 1, 2])):
             k = g.randrange(len(times))
             tn = times[k] + 0.0625
-            sc["rows"].append(["%g" % tn, g.pick(["Grren", "Red, Redd", "(Blue, Green"])])
+            sc["rows"].append(["%.10g" % tn, g.pick(["Grren", "Red, Redd", "(Blue, Green"])])
         sc["rows"].sort(key=lambda r: float(r[0]))
         sc["shuffle"] = g.chance(0.3)
         if sc["shuffle"]:
@@ -311,7 +323,7 @@ def _timepoints_from_rows(rows):
             t = t0
             lm = re.search(r"Delay/([0-9.eE+-]+) (\w+)", part)
             if lm:
-                t = t0 + float(lm.group(1)) * (0.001 if lm.group(2) == "ms" else 1.0)
+                t = t0 + float(lm.group(1)) * UNIT_FACTOR[lm.group(2)]
             tps.setdefault(round(t, 6), []).append((km.group(1), dm.group(1)))
     return [tps[k] for k in sorted(tps)]
 
